@@ -40,13 +40,21 @@ def _make_grammar(gd):
     return Grammar.from_string(gd["text"], recognizers=peers.wrap_recognizers(gd.get("recs")))
 
 
-def _make_parser(g, b, spec):
+def _make_parser(g, b, spec, actions=None):
     from parglare import GLRParser, Parser
 
     cls = Parser if b["kind"] == "lr" else GLRParser
     kw = build_kwargs(b["opts"])
-    if spec.get("actions"):
-        kw["actions"] = peers.recording_actions(spec["act_nts"], spec["act_terms"])
+    if b.get("bad_actions"):
+        # a construction that must fail: another (differently tagged) action table
+        # whose entry for one nonterminal is a list of the wrong length
+        bad = peers.recording_actions(spec["act_nts"], spec["act_terms"], tag="bad")
+        f0 = next(iter(bad.values()))
+        bad[b["bad_actions"]["nt"]] = [f0] * b["bad_actions"]["n"]
+        kw["actions"] = bad
+    elif spec.get("actions"):
+        kw["actions"] = actions if actions is not None else peers.recording_actions(
+            spec["act_nts"], spec["act_terms"])
     rec = peers.make_recovery(b.get("recovery"))
     if rec:
         kw["error_recovery"] = rec
@@ -59,9 +67,9 @@ def _make_parser(g, b, spec):
     return p, rec
 
 
-def _do_build(g, b, spec):
+def _do_build(g, b, spec, actions=None):
     try:
-        p, rec = _make_parser(g, b, spec)
+        p, rec = _make_parser(g, b, spec, actions)
     except Exception as e:
         return None, None, {"build": exc_outcome(e)}
     return p, rec, {"build": "ok", "table": table_digest(p.table)}
@@ -152,6 +160,7 @@ def child_history(spec, ops):
     grammars, parsers = {}, {}
     outs = []
     kept = {}
+    actions_of = {}
     try:
         with CpuGuard(CPU_BUDGET * 2):
             for op in ops:
@@ -169,7 +178,13 @@ def child_history(spec, ops):
                     except Exception as e:
                         outs.append({"grammar": exc_outcome(e)})
                 elif k == "build":
-                    p, rec, out = _do_build(grammars[op["g"]], op["b"], spec)
+                    # "the same actions": ONE dict object per Grammar object, handed
+                    # to every construction on it (fresh oracles get their own)
+                    gobj = grammars[op["g"]]
+                    if id(gobj) not in actions_of:
+                        actions_of[id(gobj)] = (gobj, peers.recording_actions(
+                            spec["act_nts"], spec["act_terms"]))
+                    p, rec, out = _do_build(gobj, op["b"], spec, actions_of[id(gobj)][1])
                     parsers[op["p"]] = (p, rec)
                     outs.append(out)
                 elif k == "parse":
@@ -414,6 +429,24 @@ def gen_run(rng, tier):
             b = gen_build(rng, sc, lr_fail_bias=rng.random() < 0.2)
             ops.append({"op": "build", "p": slot, "g": g, "b": b})
             parsers[slot] = dict(b, _g=g)
+        elif r < 0.255 and use_actions and act_nts:
+            # a construction that fails with ParserInitError half way through
+            # action resolution (wrong-length action list for one nonterminal)
+            g = rng.choice(sorted(have_g))
+            b = gen_build(rng, sc)
+            gnts = sc["models"][vers[g]].nts()
+            b["bad_actions"] = {"nt": rng.choice(gnts), "n": rng.choice([0, 9])}
+            slot = rng.randrange(nslots)
+            ops.append({"op": "build", "p": slot, "g": g, "b": b})
+            parsers.pop(slot, None)
+            # The failed attempt used ANOTHER action table and leaves part of it on
+            # the shared symbols, so existing parsers of this Grammar are outside
+            # "with the same actions" until the next successful construction has
+            # resolved the real table again: that construction follows at once.
+            b2 = gen_build(rng, sc)
+            slot2 = rng.randrange(nslots)
+            ops.append({"op": "build", "p": slot2, "g": g, "b": b2})
+            parsers[slot2] = dict(b2, _g=g)
         elif r < 0.27 and len(have_g) < 2:
             ops.append({"op": "grammar", "g": 1, "text": 1})
             have_g.add(1)
